@@ -118,7 +118,13 @@ PINS = {
   "torf/_torrent.py:Torrent.piece_size",
   "torf/_torrent.py:Torrent.piece_size_min",
   "torf/_torrent.py:Torrent.piece_size_max",
-  "torf/_torrent.py:Torrent.generate"
+  "torf/_torrent.py:Torrent.generate",
+  "torf/_torrent.py:Torrent.path",
+  "torf/_torrent.py:Torrent.files",
+  "torf/_torrent.py:Torrent.filepaths",
+  "torf/_utils.py:MonitoredList",
+  "torf/_utils.py:Filepaths",
+  "torf/_utils.py:Files"
  ],
  "C02": [
   "torf/_torrent.py:Torrent.verify",
